@@ -1,6 +1,6 @@
 CONSTANTS
   Dev = {"D_opt_rcode_sticks"}
-  Scenario = "reply"
+  Scenario = "optrc"
   MaxOps = 4
   CompSet = {"none"}
   TgtSet = {"sarray"}
